@@ -35,6 +35,7 @@ type entry struct {
 	Name     string
 	Content  []byte
 	DeclSize int64 // -1 = honest
+	Over63   bool  // the declared size has bit 63 set (zip64 sizes are unsigned)
 	BadCRC   bool
 	Deflate  bool // honest entries only
 	DirMode  bool // the header carries directory mode bits (whatever the name says)
@@ -46,7 +47,11 @@ type unzipCase struct {
 	Target        string // absent | empty | nonempty | nested
 }
 
-var goodNames = []string{"x.go", "y.go", "go.mod", "LICENSE", "README.md", "a/x.go", "a/b/y.go", "a/b/c/z.go", "vendor/x/y.go", "é.go", "a b.txt", ".hidden", "cmd/tool/main.go", "z", "sub/x.go", "deep/er/still/f.go"}
+var goodNames = []string{"x.go", "y.go", "go.mod", "LICENSE", "README.md", "a/x.go", "a/b/y.go", "a/b/c/z.go", "vendor/x/y.go", "é.go", "a b.txt", ".hidden", "cmd/tool/main.go", "z", "sub/x.go", "deep/er/still/f.go",
+	// sibling directories whose names are string prefixes of one another (in any zip order)
+	"cmd-tools/x.go", "cmd/main.go", "cmd.old/y.go", "a.b/f.go", "ab/f.go", "abc/x/f.go", "sub-dir/q.go", "sub dir/r.go", "deep/er/stillmore/g.go", "a/b+c/z.go", "a/b,c/z.go", "cm/q.go",
+	// names that merely end in go.mod or LICENSE
+	"cargo.mod", "testdata/algo.mod", "x.GO.MOD", "a/notgo.mod", "MYLICENSE", "a/LICENSE"}
 var badNames = []string{"..", "../x", "../../x", "../../../escape.txt", "a/../../x", "a/../b", "/abs", "/etc/passwd", "a\\b", "..\\x", "", ".", "./x", "a/", "a//b", "a/./b", "con", "aux.go", "NUL/x", "a~1", "f|g", "f:g", "trailing.", "x.go/", "x.go/child", "A/x.go", "a/X.GO", "README.MD", "readme.md", "GO.MOD", "Go.mod", "sub/go.mod", "a/GO.MOD", "a/b/go.mod", "deep/er/still/go.mod", "a/b/c/Go.Mod", "go.mod/x", "x\x00y", "\xff", "K.go", "k.go", "\u212a/x.go", "\u212a", "k/y.go", "k", "\u017f/x.go", "s", "S/z.go", "\u212b/q", "\u00e5", "ﬀ", "ff", "a/b/", "a/b", "a", "LICENSE/", "deep/", "deep/er"}
 var prefixes = []string{"GOOD", "GOOD", "GOOD", "GOOD", "GOOD", "GOOD", "GOOD", "GOOD", "", "UPPER", "OTHERVERSION", "NOSLASH", "OTHERPATH", "DOUBLE"}
 
@@ -104,7 +109,18 @@ func genCase(t *rapid.T) unzipCase {
 			e.Content = rapid.SliceOfN(rapid.Byte(), 0, 20).Draw(t, "content")
 		}
 		if hostile && gen.Chance(t, 8, "lie") {
-			switch rapid.IntRange(0, 8).Draw(t, "liekind") {
+			switch rapid.IntRange(0, 12).Draw(t, "liekind") {
+			case 12:
+				e.DeclSize = 0 // declares an empty file, carries data
+				if len(e.Content) == 0 {
+					e.Content = []byte("data")
+				}
+			case 9:
+				e.DeclSize = 1 << 62 // two of these wrap a signed 64-bit total
+			case 10:
+				e.DeclSize = 1<<63 - 1 - int64(rapid.IntRange(0, 40).Draw(t, "below63"))
+			case 11:
+				e.Over63 = true // declared size 2^63 + content length: negative as a signed number
 			case 6:
 				e.DeclSize = zipref.MaxGoMod // exactly at the limit: the check accepts, extraction then fails on the size
 			case 7:
@@ -189,7 +205,7 @@ func writeZip(path string, es []entry) error {
 	defer f.Close()
 	zw := zip.NewWriter(f)
 	for _, e := range es {
-		honest := e.DeclSize < 0 && !e.BadCRC
+		honest := e.DeclSize < 0 && !e.BadCRC && !e.Over63
 		if honest && e.Deflate && !strings.HasSuffix(e.Name, "/") {
 			fh := &zip.FileHeader{Name: e.Name, Method: zip.Deflate}
 			if e.DirMode {
@@ -214,6 +230,9 @@ func writeZip(path string, es []entry) error {
 			}
 		}
 		h := &zip.FileHeader{Name: e.Name, Method: zip.Store, CRC32: crc, CompressedSize64: uint64(len(e.Content)), UncompressedSize64: uint64(size)}
+		if e.Over63 {
+			h.UncompressedSize64 |= 1 << 63
+		}
 		if e.DirMode {
 			h.SetMode(os.ModeDir | 0o755)
 		}
@@ -293,6 +312,9 @@ func check(c unzipCase) pbt.Result {
 		if e.DeclSize >= 0 {
 			sz = e.DeclSize
 		}
+		if e.Over63 {
+			sz = -1 // beyond every limit
+		}
 		zes = append(zes, zipref.ZipEntry{Name: e.Name, Size: sz})
 	}
 	want := zipref.CheckZip(prefix, zes)
@@ -364,7 +386,7 @@ func check(c unzipCase) pbt.Result {
 		if strings.HasPrefix(e.Name, prefix) {
 			withPrefix++
 		}
-		if e.DeclSize >= 0 || e.BadCRC {
+		if e.DeclSize >= 0 || e.BadCRC || e.Over63 {
 			lies = true
 		}
 	}
